@@ -556,6 +556,14 @@ impl<B> Call<RecvResponse, B> {
             return Ok(Some((input_used, response)));
         }
 
+        // A content-length that is not even text is not a number either. The lookup
+        // below would report it as if the header was absent.
+        if let Some(header) = response.headers().get("content-length") {
+            if header.to_str().is_err() {
+                return Err(Error::BadContentLengthHeader);
+            }
+        }
+
         let header_lookup = |name: &str| {
             if let Some(header) = response.headers().get(name) {
                 return header.to_str().ok();
